@@ -12,7 +12,8 @@ from pgverif.props import c01
 
 ID = 'C07'
 RULE = ('a tree of Dict/List/Object nodes (typed and untyped classes, tuples, opaque non-symbolic leaves, '
-        'pg.Ref leaves to symbolic and plain targets, hyper placeholders, DNA, partial objects) with per-node '
+        'pg.Ref leaves to symbolic and plain targets, hyper placeholders, DNA, partial objects, functors with unspecified '
+        'defaulted arguments) with per-node '
         'flags (sealed, accessor_writable, allow_partial) set by generated prefix ops; one of clone(deep), '
         'clone(shallow), copy.copy, copy.deepcopy, clone(override); then a mutation history applied to either '
         'side. Checked: eq, class, value spec, flags node by node, well-formedness of the clone, original '
@@ -34,14 +35,14 @@ POST_OPS = treeops.LIST_OPS + treeops.DICT_OPS + treeops.OBJ_OPS + ['rebind_path
 
 def strategy(tier):
   n = 10 if tier == 'quick' else 20
-  val = values.vdesc(max_leaves=6, opaque=True, tuples=True, typed=True, extras=True)
+  val = values.vdesc(max_leaves=6, opaque=True, tuples=True, typed=True, extras=True, functors=True)
   post = st.one_of(
       treeops.op_strategy(ops=treeops.LIST_OPS + treeops.DICT_OPS + treeops.OBJ_OPS + ['rebind_path', 'rebind_multi'],
                           value=values.vdesc(max_leaves=4, opaque=True)),
       st.fixed_dictionaries({'op': st.sampled_from(['unseal', 'aw_on', 'opaque']), 't': st.integers(0, 40),
                              'i': st.integers(0, 5)}))
   return st.fixed_dictionaries({
-      'root': values.container_desc(max_leaves=14, opaque=True, tuples=True, typed=True, extras=True),
+      'root': values.container_desc(max_leaves=14, opaque=True, tuples=True, typed=True, extras=True, functors=True),
       'pre': st.lists(st.fixed_dictionaries({'op': st.sampled_from(PRE_OPS), 't': st.integers(0, 40)}), max_size=3),
       'mode': st.sampled_from(MODES),
       'ov': st.tuples(st.integers(0, 30), val).map(list),
@@ -280,6 +281,14 @@ def execute(case):
         diff = [nm for nm, x, y in zip(names, fa, fb) if x != y]
         return res.violate('flags of %s at %s: original %r, %s clone %r (sealed, allow_partial, accessor_writable)' % (
             type(a).__name__, where, fa, mode, fb), law='flags', flag=','.join(diff), kind=type(a).__name__, mode=mode)
+      if isinstance(a, pg.Functor):
+        # which arguments a functor counts as given by the user is part of what it is (it decides what can be bound
+        # later and what is written to JSON)
+        ba = (sorted(a.specified_args), sorted(a.non_default_args), sorted(a.default_args))
+        bb = (sorted(b.specified_args), sorted(b.non_default_args), sorted(b.default_args))
+        if ba != bb and mode != 'override':     # (an override may bind an argument of the functor in the clone)
+          return res.violate('functor at %s: (specified, non-default, default) arguments %r, %s clone %r' % (where, ba, mode, bb),
+                             law='functor-bookkeeping', mode=mode)
       sa = getattr(a, 'value_spec', None)
       sb = getattr(b, 'value_spec', None)
       if (sa is None) != (sb is None) or (sa is not None and sa != sb):
